@@ -15,7 +15,7 @@ from ..oracles import dft
 PID = "C17"
 LEVEL = "exploration"
 RULE = ("{FFT, Full} x N in {16,17,64,65} x grid offset {0, 5dt, -3dt, 2^20 dt} x band {inside, touching 0, past Nyquist, between "
-        "bins} x amplitude {constant, vector callable, scalar-only callable, default Rayleigh} x uniqueness {1,2,3} x rms {given, (T,R), exactly 0}; "
+        "bins} x amplitude {constant, vector callable, scalar-only callable, default Rayleigh} x uniqueness {1,2,3; 2.5 for the FFT class} x rms {given, (T,R), exactly 0}; "
         "per configuration the draws are the default Weyl stream plus every single draw (and pairs, thorough) replaced by each of "
         "{0.0, 0.25, 0.5, 0.75}; distinct_nontrivial = distinct configurations x draw scripts with a non-empty basis")
 ASSUMPTIONS = ["numpy.random is owned: rayleigh/rand are derived by inverse CDF from the harness' uniform variates",
@@ -100,14 +100,19 @@ def evaluate(case):
     nev = 0
     maxerr = 0.0
     only = case.get("only")
-    for ampname, unique, rms_spec in itertools.product(AMPS, (1, 2, 3), ("given", "TR", "zero")):
-        if only and [ampname, unique, rms_spec] != only[:3]:
+    for ampname, uarg, rms_spec in itertools.product(AMPS, (1, 2, 3, 2.5), ("given", "TR", "zero")):
+        # a fractional uniqueness factor counts as its integer part for the FFT class (2.5 -> a trace of twice the length, and
+        # consistently so); explored for one amplitude / rms spec
+        unique = int(uarg)
+        if uarg != unique and not (cls == "FFT" and ampname == "const" and rms_spec == "given"):
+            continue
+        if only and [ampname, uarg, rms_spec] != only[:3]:
             continue
         if rms_spec == "zero" and ampname != "const":
             continue        # a requested RMS of exactly 0 V (edge value): one amplitude spec is enough
         amp_arg, amp_ref = _amp_spec(ampname)
         rms = {"given": 0.75, "zero": 0.0}.get(rms_spec, math.sqrt(kB * 300.0 * 50.0 * (band[1] - band[0])))
-        cfg = "%s N=%d offset=%d*dt band=%s amp=%s unique=%d rms=%s" % (cls, n, off, bname, ampname, unique, rms_spec)
+        cfg = "%s N=%d offset=%d*dt band=%s amp=%s unique=%s rms=%s" % (cls, n, off, bname, ampname, uarg, rms_spec)
         tags = {"cls": cls, "band": bname, "amp": ampname, "offset": off,
                 "nyquist_in_band": bool(cls == "FFT" and (unique * n) % 2 == 0 and band[1] >= 1 / (2 * DT))}
 
@@ -116,12 +121,12 @@ def evaluate(case):
             t["group"] = check + ("|nyq" if t["nyquist_in_band"] else "")
             t.update(extra)
             fails.append({"check": check, "what": "%s draws=%s: %s" % (cfg, script, what), "tags": t,
-                          "replay": dict(case, only=[ampname, unique, rms_spec, script])})
+                          "replay": dict(case, only=[ampname, uarg, rms_spec, script])})
 
         def body(ch):
             s = rng.ScriptSource(chooser=ch, lattice=[0.0, 0.25, 0.5, 0.75])
             try:
-                obj = _construct(cls, times, band, amp_arg, unique, rms_spec, s)
+                obj = _construct(cls, times, band, amp_arg, uarg, rms_spec, s)
                 vals = np.array(obj.values, dtype=float)
             except Exception as e:
                 if src.exception_origin(e) != "library":
@@ -227,7 +232,7 @@ def evaluate(case):
                     if len(out) and not np.max(out) <= 1e-11 * scale:
                         fail("out-of-band", "DFT bin outside the band has magnitude %.3g" % np.max(out), script)
             if len(f):
-                nontriv.append("%s|%s|%d|%s" % (cfg, ampname, unique, script))
+                nontriv.append("%s|%s|%s|%s" % (cfg, ampname, uarg, script))
             # 6. reproducibility: same script -> identical basis and waveform; different script -> different
             if first is None:
                 again = body(choice.Chooser(script))
@@ -241,7 +246,7 @@ def evaluate(case):
         # evaluated with its own basis before it was given the first one's (history: evaluate, transplant, evaluate)
         if first is not None and len(first[0].freqs):
             for evaluate_first in (False, True):
-                o2 = _construct(cls, times, band, amp_arg if ampname != "rayleigh" else None, unique, rms_spec, rng.WeylSource(0.7171))
+                o2 = _construct(cls, times, band, amp_arg if ampname != "rayleigh" else None, uarg, rms_spec, rng.WeylSource(0.7171))
                 nev += 1
                 tt = (np.arange(-2, n + 3) + off) * DT
                 if evaluate_first:
@@ -258,7 +263,7 @@ def evaluate(case):
                          evaluated_before_transplant=evaluate_first)
         # independent objects differ (default stream vs. a shifted stream)
         if first is not None and len(first[0].freqs) and ampname == "rayleigh":
-            o2 = _construct(cls, times, band, amp_arg, unique, rms_spec, rng.WeylSource(0.4242))
+            o2 = _construct(cls, times, band, amp_arg, uarg, rms_spec, rng.WeylSource(0.4242))
             nev += 1
             if np.array_equal(np.asarray(o2.values), first[1]) and np.any(first[1] != 0):
                 fail("independent", "two objects built from different random streams are identical")
